@@ -394,7 +394,8 @@ where
 /// Two buffers holding the same S5 value; accessors of the same type are swapped between the two exclusive
 /// wrappers at a chosen point; reports where the framework notices (panics), if at all.
 /// case: scenario, when (0 = swap first, 1 = swap after a resize in both), then (0 = drop, 1 = resize sibling d,
-/// 2 = access the element again, 3 = resize the swapped container itself)
+/// 2 = access the element again, 3 = resize the swapped container itself, 4 = remove the first element of the swapped
+/// container, 5 = remove element 1 of b)
 /// observation: [1, k] = panic at event k (1 = the `then` op, 2 = drop of wrapper 1) ; [0] = nothing noticed
 fn swap(c: &mut Cur) -> Vec<i128> {
     use vh::shapes::{S5ExclusiveExt as _, S5Owned, S5};
@@ -444,6 +445,14 @@ fn swap(c: &mut Cur) -> Vec<i128> {
             2 => w1.d().push(1),
             _ => w1.c().clear(),
         },
+        // 4: remove the first element of the swapped container; 5: remove element 1 of b whatever was swapped
+        4 => match scenario {
+            0 => w1.a().remove_range(0..1),
+            1 | 3 => w1.b().remove_range(0..1),
+            2 => w1.d().remove_range(0..1),
+            _ => w1.c().remove_range(0..1),
+        },
+        5 => w1.b().remove_range(1..2),
         _ => Ok(()),
     });
     // the observation is "noticed no later than the end of the borrow" (the stage - at the operation or at the
